@@ -21,14 +21,18 @@ namespace PromVerif.Spec.Metrics
 open PromVerif.Py
 open PromVerif.Model.Metrics
 
+/-- the value passed by keyword for the label name `l` (stringified) -/
+def kwValue (kw : List (Str × PyVal)) (l : Str) : Str :=
+  match kw.find? (fun kv => kv.1 = l) with
+  | some kv => pyStr kv.2
+  | none => []
+
 /-- the child a call addresses: the tuple of stringified values, keyword values in DECLARATION order -/
 def keyOf (labelnames : List Str) : Addr → Option (List Str)
   | .none => none
   | .labels args kw =>
     if kw.isEmpty then some (args.map pyStr)
-    else some (labelnames.map (fun l => match kw.find? (fun kv => kv.1 = l) with
-      | some kv => pyStr kv.2
-      | none => []))
+    else some (labelnames.map (kwValue kw))
 
 /-- per metric: the accepted calls on the metric object itself, and per live child (in creation order) the accepted
 calls since it was last created -/
@@ -51,20 +55,15 @@ def recordOn {V : Type} (labelnames : List Str) (h : Hist V) : Op V → Hist V
   | .remove _ vs => { h with table := h.table.filter (fun kh => kh.1 ≠ vs.map pyStr) }
   | .clear _ => { h with table := [] }
 
-def Op.metric {V : Type} : Op V → Nat
-  | .call i _ _ => i
-  | .remove i _ => i
-  | .clear i => i
-
 def modifyNth {α : Type} (f : α → α) : Nat → List α → List α
   | _, [] => []
   | 0, x :: xs => f x :: xs
   | n + 1, x :: xs => x :: modifyNth f n xs
 
 def record {V : Type} (decls : List (Decl V)) (hs : List (Hist V)) (op : Op V) : List (Hist V) :=
-  match decls[Op.metric op]? with
+  match decls[op.metric]? with
   | none => hs
-  | some d => modifyNth (fun h => recordOn d.labelnames h op) (Op.metric op) hs
+  | some d => modifyNth (fun h => recordOn d.labelnames h op) op.metric hs
 
 /-- the histories after a list of accepted calls -/
 def history {V : Type} (decls : List (Decl V)) (ops : List (Op V)) : List (Hist V) :=
